@@ -36,6 +36,9 @@ def run_property(pid, tier, seed=0, repo=None):
             print(f"ANALYSIS-ERROR property={pid} not claimed by this framework")
             return 2
         meta = fn(A, ctx, tier) or {}
+        if tier == "thorough":
+            from sa import selftest
+            selftest.selftest(pid, ctx)
         return ctx.finish(A.prog, **meta)
     except AnalysisError as e:
         print(f"ANALYSIS-ERROR property={pid} {e}")
